@@ -31,9 +31,21 @@ def run(ctx):
                         if op in ("set", "multiset"):
                             sc["setvals"] = O.setvals(rnd, oids)
                         S.append(sc)
+    # objects the library knows by name (the usmStats counters, 1.3.6.1.6.3.15.1.1.k.0) are ordinary MIB objects for every protocol level
+    from absmap import VALUE_TYPES as VT
+    sdb = [[[1, k2, 0], [VT[k2 % len(VT)], 40 + k2]] for k2 in range(1, 7)]
+    for proto in O.PROTOS:
+        for op, oids in (("get", [[1, 5, 0]]), ("get", [[1, 1, 0]]), ("multiget", [[1, 1, 0], [1, 5, 0], [1, 4, 0]]), ("getnext", [[1, 3, 0]]), ("getnext", [[1]]),
+                         ("multigetnext", [[1], [1, 3, 0]]), ("bulkget", [[1, 2, 0], [1]]), ("set", [[1, 6, 0]]), ("multiset", [[1, 2, 0], [1, 3, 0]])):
+            if op == "bulkget" and proto == "v1":
+                continue
+            sc = dict(op=op, oids=oids, db=sdb, proto=proto, perturb="none", nr=1 if op == "bulkget" else 0, mr=3 if op == "bulkget" else 0, pfx="usm")
+            if op in ("set", "multiset"):
+                sc["setvals"] = O.setvals(rnd, oids)
+            S.append(sc)
     ctx.rule = ("every operation x every OID list of length 1..%d over {1, 1.1, 1.2, 2.1, 9} (duplicates, absent objects, beyond the end of the view) "
                 "x every database over {1.1, 1.2, 2.1} with rotating value types x v1/v2c/v3 levels x reply perturbation {none, extra binding, "
-                "dropped binding, oversize bulk, SET confirmed with other values than supplied}%s; non-trivial = distinct scenario whose trace was accepted") % (2 if q else 3, " (sampled in quick)" if q else "")
+                "dropped binding, oversize bulk, SET confirmed with other values than supplied}%s; every operation on the usmStats counters as ordinary objects over all levels; non-trivial = distinct scenario whose trace was accepted") % (2 if q else 3, " (sampled in quick)" if q else "")
     O.drive_and_judge(ctx, S)
     ctx.assumptions = ["BulkResult.scalars/listing are mappings: bindings with the same OID collapse (which value survives is not judged)",
                        "multigetnext may omit what follows the first endOfMibView; getnext at the end of the view must raise an SnmpError"]
